@@ -78,8 +78,8 @@ def load_findings(pid):
 def sig_matches(match, sig):
     for k, want in match.items():
         got = sig.get(k)
-        if isinstance(want, list):
-            if got not in want:
+        if isinstance(want, dict) and "any" in want:
+            if got not in want["any"]:
                 return False
         elif got != want:
             return False
